@@ -1,6 +1,8 @@
 import Proofs.C07Writer
 import Proofs.C07Machine
 import Proofs.C07Quit
+import Proofs.C07Sem
+import Proofs.C07Refine
 /-!
 # C07 — frames are written whole (property theorems)
 
@@ -429,6 +431,195 @@ example : ∃ s, run { lens := fun _ => 10, coalesce := true } init
      .enter 2, .piece 2 10, .endWrite 2 true, .flusherQuit, .shutdown] = some s ∧
     s.wire = [⟨1, 0, 10⟩, ⟨2, 0, 10⟩] ∧ s.pc 3 = .wrote 0 false ∧ s.pc 2 = .wrote 10 true ∧ s.gone = true := by
   refine ⟨_, rfl, ?_, ?_, ?_, ?_⟩ <;> decide
+
+/-! ### the semaphore is held exactly while a Write is in progress (cancellation at the select: `S<w>` scenarios)
+
+A caller whose context has ALREADY ENDED when it reaches writeContext's first select (Conn.exec checks `ctx.Err()` up front,
+but the context can end between that check and the select) is one `submit w` followed by whatever the select takes:
+`cancel w` (it leaves with `(0, ctx.Err())`) or `enter w` / `enqueue w` (the semaphore / the hand-over won: it writes like
+anybody else). Either way the mechanism is left intact: -/
+
+/-- the semaphore (coalescer: "the buffer the flusher is writing") is held by `w` IF AND ONLY IF the frame of `w` is inside
+    the socket Write — in every reachable state, both writers. A writer that returned early, with or without an error, never
+    keeps it, and nobody is inside the Write without holding it. -/
+theorem C07_semaphore_held_only_inside_write (cfg : Cfg) (hser : cfg.serialised = true) (as : List Act) (s : St)
+    (h : run cfg init as = some s) (w : Nat) : s.owner = some w ↔ ∃ off, s.pc w = .inWrite off := by
+  constructor
+  · exact ownerIn_run cfg as init s ownerIn_init h w
+  · rintro ⟨off, ho⟩
+    exact (inv_run cfg hser as init s (inv_init cfg) h).mutex w off ho
+
+/-- a writer whose outcome is determined (it left through `ctx.Done()`, through `quit`, or with the result of its Write)
+    does not hold the semaphore -/
+theorem C07_outcome_holds_no_semaphore (cfg : Cfg) (as : List Act) (s : St) (h : run cfg init as = some s) (w : Nat)
+    (o : Nat × Bool) (ho : (s.pc w).outcome = some o) : s.owner ≠ some w := by
+  intro hw
+  obtain ⟨off, hp⟩ := ownerIn_run cfg as init s ownerIn_init h w hw
+  rw [hp] at ho
+  simp [Pc.outcome] at ho
+
+/-- the semaphore is never lost: while no Write is in progress it is free, so a caller waiting in the direct writer's
+    select can take it (nobody is parked there for ever because an earlier caller left without releasing) -/
+theorem C07_free_when_no_write_in_progress (cfg : Cfg) (hc : cfg.coalesce = false) (as : List Act) (s : St)
+    (h : run cfg init as = some s) (hno : ∀ x off, s.pc x ≠ .inWrite off) (w : Nat) (hw : s.pc w = .waiting) :
+    s.owner = none ∧ ∃ s', step cfg s (.enter w) = some s' ∧ s'.pc w = .inWrite 0 ∧ s'.owner = some w ∧ s'.wire = s.wire := by
+  have hfree : s.owner = none := by
+    cases ho : s.owner with
+    | none => rfl
+    | some x =>
+      obtain ⟨off, hp⟩ := ownerIn_run cfg as init s ownerIn_init h x ho
+      exact absurd hp (hno x off)
+  refine ⟨hfree, { s with pc := setPc s.pc w (.inWrite 0), owner := some w, todo := s.todo.filter (· ≠ w) }, ?_,
+    setPc_same _ _ _, rfl, rfl⟩
+  simp only [step]
+  rw [if_pos ⟨fun _ => hfree, Or.inl ⟨hc, hw⟩⟩]
+
+/-- a caller that leaves the first select through `ctx.Done()` takes nothing with it: no byte, not the semaphore, no slot
+    in the flusher's queue or batch; every other writer is where it was -/
+theorem C07_cancelled_leaves_nothing (cfg : Cfg) (s s' : St) (w : Nat) (hs : step cfg s (.cancel w) = some s') :
+    s.pc w = .waiting ∧ s'.pc w = .cancelled ∧ s'.wire = s.wire ∧ s'.owner = s.owner ∧ s'.queue = s.queue ∧
+      s'.todo = s.todo ∧ s'.flushing = s.flushing ∧ ∀ x, x ≠ w → s'.pc x = s.pc x :=
+  cancel_frame cfg s s' w hs
+
+/-- non-vacuity: writer 1's context has ended when it reaches the select and the select takes `ctx.Done()`; writers 2, 3
+    then write one after the other (3 cannot enter while 2 is half out) -/
+example : ∃ s, run { lens := fun _ => 10, coalesce := false } init
+    [.submit 1, .cancel 1, .submit 2, .enter 2, .ret 1, .piece 2 4, .submit 3, .piece 2 6, .endWrite 2 true, .enter 3,
+     .piece 3 10, .endWrite 3 true] = some s ∧
+    s.wire = [⟨2, 0, 4⟩, ⟨2, 4, 6⟩, ⟨3, 0, 10⟩] ∧ s.pc 1 = .done 0 false ∧ s.owner = none := by
+  refine ⟨_, rfl, ?_, ?_, ?_⟩ <;> decide
+
+/-- ... the history of a writer whose early return releases the semaphore a second time (writer 3 enters while writer 2
+    is half out) is not a behaviour of the machine -/
+example : run { lens := fun _ => 10, coalesce := false } init
+    [.submit 1, .cancel 1, .submit 2, .enter 2, .ret 1, .piece 2 4, .submit 3, .enter 3] = none := by decide
+
+/-- ... and the other branch of the select: the semaphore wins although the context has ended; the frame is written whole -/
+example : ∃ s, run { lens := fun _ => 10, coalesce := false } init
+    [.submit 1, .enter 1, .submit 2, .piece 1 10, .endWrite 1 true, .ret 1, .enter 2] = some s ∧
+    s.pc 1 = .done 10 true ∧ s.owner = some 2 := by
+  refine ⟨_, rfl, ?_, ?_⟩ <;> decide
+
+/-! ### refinement between the coalescing writer machine and the plain (semaphore) writer machine, for the byte stream -/
+
+/-- **the coalescing writer adds no byte stream**: every schedule of the machine (in particular of the coalescing writer:
+    enqueue, flush timer, batches of any size, result fan-out, the flusher's quit branch, in any interleaving) is matched
+    by a schedule of the DIRECT writer with the same frame lengths - the projection of the schedule itself on
+    `submit / enter / piece / endWrite` - that reaches the same wire, piece by piece, with the same semaphore holder and,
+    for every writer that has not yet left, the same position (not arrived / Write not begun / `off` bytes out). -/
+theorem C07_coalescer_refines_direct (cfg : Cfg) (as : List Act) (s : St) (h : run cfg init as = some s) :
+    ∃ s', run cfg.direct init (wireActs as) = some s' ∧ s'.wire = s.wire ∧ s'.owner = s.owner ∧
+      (s.closed = false → s'.closed = false) ∧ ∀ w off, s.pc w = .inWrite off → s'.pc w = .inWrite off := by
+  obtain ⟨s', hr, hsim⟩ := sim_run cfg as init s init sim_init h
+  refine ⟨s', hr, hsim.wire, hsim.owner, hsim.open_, fun w off hw => ?_⟩
+  have := hsim.pcs w
+  rw [hw] at this
+  exact this
+
+/-- **and it loses none**: every schedule of the direct writer is matched by a schedule of the coalescing writer (each
+    acquisition of the semaphore becomes `enqueue ; tick ; enter`: a batch of one) with the same wire -/
+theorem C07_direct_refines_coalescer (cfg : Cfg) (hser : cfg.serialised = true) (hc : cfg.coalesce = false)
+    (as : List Act) (s : St) (h : run cfg init as = some s) :
+    ∃ s', run cfg.coalescing init (as.flatMap coActs) = some s' ∧ s'.wire = s.wire ∧ s'.owner = s.owner ∧
+      (s.closed = false → s'.closed = false) := by
+  obtain ⟨s', hr, hsim⟩ := sim'_run cfg hser hc as init s init sim'_init h
+  exact ⟨s', hr, hsim.wire, hsim.owner, hsim.open_⟩
+
+/-- so the two writers have EXACTLY the same reachable byte streams, for every assignment of frame lengths: whatever is
+    proved about the wire of one machine (framing, non-interleaving, what the monitor accepts) holds for the other -/
+theorem C07_same_byte_streams (lens : Nat → Nat) (wire : List Piece) :
+    (∃ as s, run { lens := lens, coalesce := true } init as = some s ∧ s.wire = wire) ↔
+    (∃ as s, run { lens := lens, coalesce := false } init as = some s ∧ s.wire = wire) := by
+  constructor
+  · rintro ⟨as, s, h, hw⟩
+    obtain ⟨s', hr, hw', _⟩ := C07_coalescer_refines_direct _ as s h
+    exact ⟨wireActs as, s', hr, hw'.trans hw⟩
+  · rintro ⟨as, s, h, hw⟩
+    obtain ⟨s', hr, hw', _⟩ := C07_direct_refines_coalescer _ rfl rfl as s h
+    exact ⟨as.flatMap coActs, s', hr, hw'.trans hw⟩
+
+/-- non-vacuity: a coalesced flush of three frames with the second one cut, and its projection on the direct writer -/
+example : ∃ s s', run { lens := fun w => 10 * w, coalesce := true } init
+    [.submit 1, .submit 2, .submit 3, .enqueue 1, .enqueue 2, .enqueue 3, .tick, .enter 1, .piece 1 3, .piece 1 7,
+     .endWrite 1 true, .enter 2, .piece 2 5, .endWrite 2 false, .ret 1, .ret 2, .ret 3, .close 3] = some s ∧
+    run { lens := fun w => 10 * w, coalesce := false } init
+    [.submit 1, .submit 2, .submit 3, .enter 1, .piece 1 3, .piece 1 7, .endWrite 1 true, .enter 2, .piece 2 5,
+     .endWrite 2 false] = some s' ∧ s'.wire = s.wire ∧ s.wire = [⟨1, 0, 3⟩, ⟨1, 3, 7⟩, ⟨2, 0, 5⟩] := by
+  refine ⟨_, _, rfl, rfl, ?_, ?_⟩ <;> decide
+
+example : wireActs [.submit 1, .enqueue 1, .tick, .enter 1, .piece 1 3, .cancel 2, .endWrite 1 true, .ret 1, .shutdown] =
+    [.submit 1, .enter 1, .piece 1 3, .endWrite 1 true] := rfl
+
+example : [Act.submit 1, .enter 1, .piece 1 3, .endWrite 1 false, .ret 1, .close 1].flatMap coActs =
+    [.submit 1, .enqueue 1, .tick, .enter 1, .piece 1 3, .endWrite 1 false] := rfl
+
+/-- LITERAL READING of "a request whose context ended before writing began leaves no bytes" (proposed finding KF-C07-2): in
+    the state right after `submit 1` - where, the context having ended, `cancel 1` is enabled - `enter 1` is enabled as well
+    (Go's select chooses at random among ready cases) and leads to the whole frame on the wire with outcome `(len, nil)`.
+    What holds for all schedules is the reading BY OUTCOME, `C07_cancel_before_start_no_bytes`: a writer that is told
+    `(0, ctx.Err())` has no byte on the wire. -/
+theorem C07_cex_select_may_prefer_semaphore :
+    ∃ s0 s, run { lens := fun _ => 10, coalesce := false } init [.submit 1] = some s0 ∧
+      (step { lens := fun _ => 10, coalesce := false } s0 (.cancel 1)).isSome = true ∧
+      run { lens := fun _ => 10, coalesce := false } s0 [.enter 1, .piece 1 10, .endWrite 1 true] = some s ∧
+      s.wire = [⟨1, 0, 10⟩] ∧ s.pc 1 = .wrote 10 true := by
+  refine ⟨_, _, rfl, ?_, rfl, ?_, ?_⟩ <;> decide
+
+/-! ### a fault BEFORE byte 0: `SetWriteDeadline` fails inside the critical section / at the head of `flush` (`D` scenarios) -/
+
+/-- the direct writer then returns `(0, err)` and releases the semaphore; the coalescer's `flush` hands `(0, err)` to EVERY
+    buffer of the batch and is back at its select. Observably this is a Write that ends with an error before its first byte:
+    nothing reaches the wire, nobody of the batch is left without a result, and the batch is gone. -/
+theorem C07_failure_before_first_byte (cfg : Cfg) (s s1 s2 : St) (w : Nat) (hpos : 0 < cfg.lens w)
+    (h1 : step cfg s (.enter w) = some s1) (h2 : step cfg s1 (.endWrite w false) = some s2) :
+    s2.wire = s.wire ∧ s2.pc w = .wrote 0 false ∧ s2.owner = none ∧
+      (cfg.coalesce = true → (∀ x ∈ s.todo, s2.pc x = .wrote 0 false) ∧ s2.todo = [] ∧ s2.flushing = false) := by
+  simp only [step] at h1
+  split at h1
+  · injection h1 with h1; subst h1
+    simp only [step, setPc_same] at h2
+    split at h2
+    · injection h2 with h2; subst h2
+      have hne : (0 == cfg.lens w) = false := by
+        cases hb : (0 == cfg.lens w)
+        · rfl
+        · have := (Nat.beq_eq_true_eq _ _).mp hb
+          omega
+      refine ⟨rfl, ?_, rfl, fun hc => ⟨fun x hx => ?_, ?_, ?_⟩⟩
+      · simp [setPc_same, hne]
+      · dsimp only
+        by_cases e : x = w
+        · subst e; simp [setPc_same, hne]
+        · rw [setPc_other _ _ _ _ e]
+          simp only [hc, Bool.true_and, Bool.not_false, if_true]
+          rw [setMany_mem _ _ _ _ (by simp [List.mem_filter, hx, e])]
+      · simp [hc]
+      · simp [hc]
+    · simp at h2
+  · simp at h1
+
+/-- non-vacuity: a flush of [1, 2] whose deadline cannot be armed; 3 is flushed afterwards -/
+example : ∃ s, run { lens := fun _ => 10, coalesce := true } init
+    [.submit 1, .submit 2, .enqueue 1, .enqueue 2, .tick, .enter 2, .endWrite 2 false, .ret 1, .ret 2, .submit 3, .enqueue 3,
+     .tick, .enter 3, .piece 3 10, .endWrite 3 true] = some s ∧
+    s.wire = [⟨3, 0, 10⟩] ∧ s.pc 1 = .failing 0 ∧ s.pc 2 = .failing 0 ∧ s.pc 3 = .wrote 10 true := by
+  refine ⟨_, rfl, ?_, ?_, ?_, ?_⟩ <;> decide
+
+/-- result fan-out of `flush` is complete: whenever the flusher is back at its select (no flush in progress), no writer is
+    left inside a batch - a writer that still waits for a result is one the flusher has not taken yet (it is in the queue
+    of the NEXT flush, or will be failed by the quit branch: `C07_no_writer_left_behind`) -/
+theorem C07_flush_hands_every_result (cfg : Cfg) (hser : cfg.serialised = true) (hq : cfg.flushOnQuit = false)
+    (as : List Act) (s : St) (h : run cfg init as = some s) (hf : s.flushing = false) (w : Nat) (hw : s.pc w = .queued) :
+    w ∈ s.queue ∧ s.todo = [] := by
+  have invq := invq_run cfg hser hq as init s (inv_init cfg) (invq_init cfg) h
+  have htodo := invq.idleTodo hf
+  exact ⟨(invq.qAcc w hw).resolve_right (by rw [htodo]; simp), htodo⟩
+
+/-- non-vacuity: 3 is enqueued while the flush of [1, 2] is cut; after the flush 1 and 2 have their results, 3 is queued -/
+example : ∃ s, run { lens := fun _ => 10, coalesce := true } init
+    [.submit 1, .submit 2, .submit 3, .enqueue 1, .enqueue 2, .tick, .enter 1, .piece 1 4, .endWrite 1 false, .enqueue 3] = some s ∧
+    s.flushing = false ∧ s.pc 1 = .wrote 4 false ∧ s.pc 2 = .wrote 0 false ∧ s.pc 3 = .queued ∧ s.queue = [3] := by
+  refine ⟨_, rfl, ?_, ?_, ?_, ?_, ?_⟩ <;> decide
 
 /-! ### frame size is a parameter: nothing above depends on it; the two writers differ in ONE size-independent detail -/
 
